@@ -53,7 +53,7 @@ manifest = {
     "engines": [{"name": "mc", "path": "/verif/mc", "serves_properties": [c["property_id"] for c in checks],
                  "kind_free_text": "hand-written bounded-exhaustive explorers over the real implementation (product/sequence enumerators, explicit-state BFS over histories, deviation-bounded answer trees for owned nondeterminism, schedule explorers) + TLC models with edge-by-edge conformance replay"}],
     "checks": checks,
-    "notes": "See DESIGN.md. Every check: ./run <id> --tier quick|thorough; exit 0 / exit 1 + VIOLATION line / exit 2 harness error. known_findings.json lists genuine defects recorded rather than repaired.",
+    "notes": "See DESIGN.md. Every check: ./run <id> --tier quick|thorough; exit 0 / exit 1 + VIOLATION line / exit 2 harness error. known_findings/<id>.json (one committed file per property, never written at run time) lists genuine defects recorded rather than repaired and, as documentation only, the ones repaired in /repo (status fixed: these suppress nothing).",
     "not_applicable": na,
 }
 json.dump(manifest, open(os.path.join(ROOT, "MANIFEST.json"), "w"), indent=1)
